@@ -29,6 +29,7 @@ import (
 	"github.com/bufbuild/buf/private/pkg/storage/storagearchive"
 	"github.com/bufbuild/buf/private/pkg/storage/storagemem"
 	"github.com/bufbuild/buf/private/pkg/storage/storageos"
+	"github.com/bufbuild/buf/private/pkg/verifhook"
 	"google.golang.org/protobuf/types/pluginpb"
 )
 
@@ -231,10 +232,10 @@ func (w *responseWriter) writeZip(
 			return err
 		}
 		defer func() {
-			retErr = errors.Join(retErr, file.Close())
+			retErr = errors.Join(retErr, verifhook.Fault(ctx, "os.close", file.Name(), file.Close()))
 		}()
 		// protoc does not compress.
-		return storagearchive.Zip(ctx, readWriteBucket, file, false)
+		return storagearchive.Zip(ctx, readWriteBucket, verifhook.Writer(file.Name(), file), false)
 	})
 	return nil
 }
